@@ -397,6 +397,9 @@ func c16Adopt(c *run.Ctx, st *c16State, stopAgain, useFS bool, stats *c16Stats) 
 				os.WriteFile(filepath.Join(dir, "README"), []byte("x"), 0o600)
 				os.WriteFile(filepath.Join(dir, "0000g"), []byte("x"), 0o600)
 				os.WriteFile(filepath.Join(dir, "123456"), []byte("x"), 0o600)
+				// a directory whose name reads as a key nobody uses
+				os.Mkdir(filepath.Join(dir, "1abcd"), 0o700)
+				os.Mkdir(filepath.Join(dir, "07fff"), 0o700)
 			}
 			w.Store.Inner = fs
 			stats.fs++
